@@ -84,6 +84,12 @@ class QGen:
                 inner = self.query(depth + 1, first=True, max_len=2)
             else:
                 inner = self.query(depth + 1, first=False, max_len=2)
+        # the same link text appearing at several places of one query (its meaning depends on the position when relative)
+        last = getattr(self, "_last_link", None)
+        if last is not None and last[0] == (absolute, numeric) and r.random() < 0.35 and (absolute or pos > 0):
+            inner = last[1]
+            self.feat("link.repeated_text")
+        self._last_link = ((absolute, numeric), inner)
         self.feat("link.absolute" if absolute else "link.relative")
         self.feat("link.depth%d" % (depth + 1))
         return "~X~" + ("/" if absolute else "") + inner + "~E"
@@ -232,8 +238,24 @@ class QGen:
         return "/".join(acts)
 
     def top(self):
+        self._last_link = None
+        return self._top()
+
+    def _top(self):
         """top-level query text, possibly with header / trailing file name"""
         r = self.r
+        if r.random() < 0.06:
+            # the same relative link at two positions: its value depends on the prefix it is applied to
+            link = r.choice(["add-1", "add-2/add-3", "ident", "mulf-2", "cat-z"])
+            a1 = r.choice(["add", "cat", "mulf", "pair"])
+            a2 = r.choice(["add", "cat", "mulf", "cat-m"])
+            q = "%s/%s-~X~%s~E/%s-~X~%s~E" % (r.choice(["one", "num-3", "flt-1.5"]), a1, link, a2, link)
+            self.feat("link.repeated_text")
+            self.feat("link.relative")
+            if r.random() < 0.5:
+                q += "/" + self.query(0, first=False, max_len=2)
+            self.feat("length.%d" % (q.count("/") + 1))
+            return q
         q = self.query(0)
         if r.random() < 0.2:
             fn = r.choice(["out.txt", "data.json", "x.pickle", "r.tar.gz", "a.HTML", "noext.", "f.b", "t.csv"])
